@@ -679,7 +679,64 @@ fn rand_demo(g: &mut SplitMix64, depth: usize) -> Demo {
     }
 }
 
+/// values whose serialisation FAILS partway (serde_json: map keys must be strings; a Serialize impl that errors after
+/// it has written something)
+#[derive(Clone)]
+struct FailsMidway;
+impl serde::Serialize for FailsMidway {
+    fn serialize<S: serde::Serializer>(&self, s: S) -> Result<S::Ok, S::Error> {
+        use serde::ser::SerializeMap;
+        let mut m = s.serialize_map(None)?;
+        m.serialize_entry("user", "alice")?;
+        m.serialize_entry("started", &true)?;
+        Err(serde::ser::Error::custom("midway"))
+    }
+}
+impl<'de> serde::Deserialize<'de> for FailsMidway {
+    fn deserialize<D: serde::Deserializer<'de>>(_: D) -> Result<Self, D::Error> {
+        Err(serde::de::Error::custom("never"))
+    }
+}
+
+/// an encode that fails must leave nothing behind: the next encodes on the same thread (claims payload, Json payload,
+/// Json footer) give exactly what they give on a fresh thread
+fn encode_after_failure(run: &mut Run, g: &mut SplitMix64) {
+    let spool = gens::string_pool();
+    let tpool = gens::ts_pool();
+    for round in 0..40 {
+        run.rep.evaluations += 1;
+        run.rep.count("encode-after-failure");
+        // 1. failing encodes through each of the three encoders
+        let mut bad_map = std::collections::BTreeMap::new();
+        bad_map.insert((1i32, 2i32), 3i32);
+        let fails = [
+            enc_payload(FailsMidway).is_err(),
+            enc_footer(&Json(FailsMidway)).is_err(),
+            { let mut out: Vec<u8> = vec![]; <Json<std::collections::BTreeMap<(i32, i32), i32>> as Payload>::encode(Json(bad_map.clone()), &mut out).is_err() },
+        ];
+        if !fails.iter().all(|x| *x) {
+            run.rep.violation("json.failing-encode-succeeded", format!("an encode that must fail succeeded: {:?}", fails), json!({"op":"json","type":"encode-after-failure"}));
+        }
+        // 2. valid encodes afterwards, compared with the reference
+        let c = rand_fields(g, (round as u32 * 37 + 5) % 128, &spool, &tpool, false);
+        let rc = c.to_rc();
+        if let (Ok(after), Some(reference)) = (impl_encode(&rc), std::thread::spawn({ let rc = rc.clone(); move || impl_encode(&rc).ok() }).join().ok().flatten()) {
+            if after != reference {
+                run.rep.violation("roundtrip.encode-after-failure", format!("after a failed encode on the same thread the claims encode to {} instead of {}", brief_bytes(&after), brief_bytes(&reference)), json!({"op":"json","type":"encode-after-failure"}));
+            }
+        }
+        let d = rand_demo(g, 2);
+        let reference = serde_json::to_vec(&d).expect("to_vec");
+        let p = enc_payload(d.clone());
+        let f = enc_footer(&Json(d.clone()));
+        if p.as_ref().ok() != Some(&reference) || f.as_ref().ok() != Some(&reference) {
+            run.rep.violation("json.encode-after-failure", format!("after a failed encode on the same thread Json<Demo> encodes {:?} / {:?}, serde_json::to_vec gives {}", p.map(|b| brief_bytes(&b)), f.map(|b| brief_bytes(&b)), brief_bytes(&reference)), json!({"op":"json","type":"encode-after-failure"}));
+        }
+    }
+}
+
 fn json_wrappers(run: &mut Run, g: &mut SplitMix64, n: usize) {
+    encode_after_failure(run, g);
     // empty footer is an error ("missing footer"); an empty payload is whatever serde_json says (an error)
     run.rep.evaluations += 1;
     if <Json<serde_json::Value> as Footer>::decode(b"").is_ok() || <Json<Demo> as Footer>::decode(b"").is_ok() || <Json<()> as Footer>::decode(b"").is_ok() {
